@@ -27,6 +27,7 @@ from pymbolic.mapper.stringifier import StringifyMapper
 from pymbolic.primitives import Expression, LogicalNot
 
 from dagrt.language import Assign, Nop
+from dagrt.utils import get_variables
 
 
 # {{{ ast node types
@@ -421,6 +422,40 @@ class ASTPostSimplifyMapper(ASTIdentityMapper):
         return StatementWrapper(expr.statement)
 
 
+class _WrittenVariableFinder(ASTCollector):
+    """Collects the names assigned by the statements (and loops) of an AST."""
+
+    def map_constant(self, expr):
+        return set()
+
+    def map_variable(self, expr):
+        return set()
+
+    map_algebraic_leaf = map_variable
+
+    def map_IfThenElse(self, expr):
+        return self.rec(expr.then) | self.rec(expr.else_)
+
+    def map_IfThen(self, expr):
+        return self.rec(expr.then)
+
+    def map_ForLoop(self, expr):
+        return {expr.loop_var_name} | self.rec(expr.body)
+
+    def map_NullASTNode(self, expr):
+        return set()
+
+    def map_StatementWrapper(self, expr):
+        return set(expr.statement.get_written_variables())
+
+    def rec(self, expr):
+        if not isinstance(expr, ASTNode):
+            # a bare statement used as a leaf
+            get_written = getattr(expr, "get_written_variables", None)
+            return set(get_written()) if get_written is not None else set()
+        return super().rec(expr)
+
+
 class ASTSimplifyMapper(ASTIdentityMapper):
 
     def map_IfThenElse(self, expr):
@@ -485,9 +520,13 @@ class ASTSimplifyMapper(ASTIdentityMapper):
                 continue
 
             # Merge adjacent conditionals.
+            # (Not if the first one assigns a variable of the condition: the
+            # second one has to test the condition again.)
             if isinstance(current_child, IfThenElse) \
                     and isinstance(next_child, IfThenElse) \
-                    and current_child.condition == next_child.condition:
+                    and current_child.condition == next_child.condition \
+                    and not (get_variables(current_child.condition)
+                             & _WrittenVariableFinder()(current_child)):
                 current_child = \
                     IfThenElse(current_child.condition,
                                flat_Block(current_child.then, next_child.then),
